@@ -1,3 +1,5 @@
 import FlacModel.Model.Basic
 import FlacModel.Model.Frame
 import FlacModel.Model.Decode
+import FlacModel.Model.StreamReader
+import FlacModel.Spec.Rfc
